@@ -261,7 +261,11 @@ class SdoServer:
     up- and download, complete access, toggle checking)"""
 
     def __init__(self, objects=None, mbx_in_size=128, mbx_out_size=128,
-                 strict_size=True):
+                 strict_size=True, ca_expedited=False):
+        # ca_expedited: complete-access uploads of up to 4 bytes are answered
+        # with an expedited response that mirrors the complete-access bit
+        # (ETG.1000.6 table "SDO upload expedited response")
+        self.ca_expedited = ca_expedited
         self.objects = dict(objects or {})    # (index, sub) -> bytes
         self.in_size = mbx_in_size            # slave -> master mailbox
         self.out_size = mbx_out_size
@@ -356,9 +360,9 @@ class SdoServer:
         v = self.value(index, sub, ca)
         if v is None:
             return self.abort(index, sub, 0x06020000, "object does not exist")
-        if len(v) <= 4 and not ca:
+        if 1 <= len(v) <= 4 and (not ca or self.ca_expedited):
             n = 4 - len(v)
-            cmd = 0x40 | (n << 2) | 0x03
+            cmd = 0x40 | (n << 2) | 0x03 | (0x10 if ca else 0)
             return [self.reply(3, struct.pack("<BHB4s", cmd, index, sub,
                                               v.ljust(4, b"\0")))]
         room = self.in_size - 6 - 2 - 8        # mbx hdr, coe hdr, sdo hdr+size
